@@ -289,6 +289,12 @@ pub struct SideObs {
     pub reads_short: u64,
 }
 
+/// Failures of a call's own report (return value of consume / advance_slices
+/// / read).  They are recorded and the run continues, so that the end-to-end
+/// oracles (round trip, canonical output, prefix) are still evaluated on the
+/// same execution.
+pub type Soft = Vec<Fail>;
+
 #[derive(Debug)]
 pub struct Fail {
     pub props: Vec<&'static str>,
@@ -313,6 +319,7 @@ fn observe_and_drain(
     lag_limit: Option<usize>,
     is_decoder: bool,
     full_peek: bool,
+    soft: &mut Soft,
 ) -> Result<(), Fail> {
     // (1) exposed slices live + disjoint + non-empty; (2) lag; (3) snapshot.
     let total = cons.total_size();
@@ -385,7 +392,7 @@ fn observe_and_drain(
             let got = cons.consume(k);
             obs.drains += 1;
             if got != take {
-                return Err(fail(&["C03", "C09"], "consume-ret", format!("consume({}) returned {} with {} stable slices", k, got, n)));
+                soft.push(fail(&["C03", "C09", "C04"], "consume-ret", format!("consume({}) returned {} with {} stable slices", k, got, n)));
             }
         }
         Drain::Advance(_) | Drain::AdvanceAllButOne => {
@@ -406,7 +413,7 @@ fn observe_and_drain(
             let got = cons.advance_slices(n);
             obs.drains += 1;
             if got != take {
-                return Err(fail(&["C03", "C09"], "advance-ret", format!("advance_slices({}) returned {} with {} stable bytes", n, got, stable_len)));
+                soft.push(fail(&["C03", "C09", "C04"], "advance-ret", format!("advance_slices({}) returned {} with {} stable bytes", n, got, stable_len)));
             }
         }
         Drain::ReadBuf(n) => {
@@ -417,9 +424,9 @@ fn observe_and_drain(
             };
             obs.drains += 1;
             if got != n.min(stable_len) {
-                return Err(fail(&["C03", "C09"], "read-ret", format!("read(buf {}) returned {} with {} stable bytes", n, got, stable_len)));
+                soft.push(fail(&["C03", "C09"], "read-ret", format!("read(buf {}) returned {} with {} stable bytes", n, got, stable_len)));
             }
-            obs.drained.extend_from_slice(&buf[..got]);
+            obs.drained.extend_from_slice(&buf[..got.min(buf.len())]);
         }
     }
     Ok(())
@@ -449,7 +456,7 @@ pub struct EncodeOut {
 }
 
 /// Feeds `input` to an encoder according to `plan`, monitoring after every call.
-pub fn run_encode(params: Params, input: &[u8], plan: &[PieceStep], owned: &Owned, heavy_monitor: bool) -> Result<EncodeOut, Fail> {
+pub fn run_encode(params: Params, input: &[u8], plan: &[PieceStep], owned: &Owned, heavy_monitor: bool, soft: &mut Soft) -> Result<EncodeOut, Fail> {
     let mut obs = SideObs::default();
     let mut enc = AnyEnc::new(params);
     let mut start = 0usize;
@@ -459,7 +466,7 @@ pub fn run_encode(params: Params, input: &[u8], plan: &[PieceStep], owned: &Owne
         feed_encoder(&mut enc, piece, step, &mut obs, owned)?;
         start = step.end;
         let full_peek = heavy_monitor || si % 16 == 0 || step.drain != Drain::None;
-        observe_and_drain(enc.consumer(), step.drain, step.poke, &mut obs, owned, lag_limit, false, full_peek)?;
+        observe_and_drain(enc.consumer(), step.drain, step.poke, &mut obs, owned, lag_limit, false, full_peek, soft)?;
     }
     let iov = enc.finish();
     {
@@ -572,7 +579,7 @@ fn read_anchored_dec(dec: &mut AnyDec<'_>, piece: &[u8], aux: u64, obs: &mut Sid
 }
 
 /// Feeds `enc` to a decoder according to `plan`.
-pub fn run_decode(params: Params, enc: &[u8], plan: &[PieceStep], owned: &Owned, heavy_monitor: bool) -> Result<DecodeOut, Fail> {
+pub fn run_decode(params: Params, enc: &[u8], plan: &[PieceStep], owned: &Owned, heavy_monitor: bool, soft: &mut Soft) -> Result<DecodeOut, Fail> {
     let mut obs = SideObs::default();
     let mut dec = AnyDec::new(params);
     let mut start = 0usize;
@@ -636,9 +643,35 @@ pub fn run_decode(params: Params, enc: &[u8], plan: &[PieceStep], owned: &Owned,
             break;
         }
         let full_peek = heavy_monitor || si % 16 == 0 || step.drain != Drain::None;
-        observe_and_drain(dec.consumer(), step.drain, step.poke, &mut obs, owned, None, true, full_peek)?;
+        observe_and_drain(dec.consumer(), step.drain, step.poke, &mut obs, owned, None, true, full_peek, soft)?;
     }
     if rejected {
+        // The decoder refused the input, but what it decoded before the
+        // error stays readable through its consumer: it must stay alive and
+        // unchanged while the arena moves on (C05).
+        let snapshot = |dec: &mut AnyDec<'_>, obs: &mut SideObs| -> Result<Vec<u8>, Fail> {
+            let cons = dec.consumer();
+            let prefix = cons.stable_prefix();
+            expose::check_view(prefix, owned, &mut obs.expose).map_err(|e| fail(&["C05"], "expose-after-reject", e))?;
+            let mut v = Vec::new();
+            for s in prefix {
+                v.extend_from_slice(s);
+            }
+            Ok(v)
+        };
+        let before = snapshot(&mut dec, &mut obs)?;
+        {
+            let mut cons = dec.consumer();
+            cons.arena().flush_cache();
+            cons.arena().ensure_capacity(5000);
+            let junk = [0xC3u8; 700];
+            let _ = cons.arena().read_n(&junk[..], 700, MAX_ATTEMPTS);
+            cons.arena().flush_cache();
+        }
+        let after = snapshot(&mut dec, &mut obs)?;
+        if before != after {
+            return Err(fail(&["C05"], "changed-after-reject", format!("bytes readable through a rejecting decoder's consumer changed after the arena moved on (offset {})", first_diff(&before, &after))));
+        }
         return Ok(DecodeOut { result: None, obs });
     }
     match dec.finish() {
@@ -840,19 +873,23 @@ fn round_trip(ctx: &mut Ctx, kind: &str, index: u64, case: &RoundTripCase<'_>) -
 
     let mut dec_plan_used: Option<Vec<PieceStep>> = None;
     let mut sig_bits = (0u64, 0u64, 0u64);
+    let mut soft: Soft = Vec::new();
     let res = catch(|| -> Result<(usize, usize), Fail> {
-        let enc_out = run_encode(params, input, &case.enc_plan, &owned, case.heavy)?;
+        let enc_out = run_encode(params, input, &case.enc_plan, &owned, case.heavy, &mut soft)?;
         let e = &enc_out.total;
 
         // C02 (a): no stuff sequence anywhere in the produced bytes.
+        // The oracles below are independent: each failure is recorded (as a
+        // "soft" failure) and the remaining ones are still evaluated, so that
+        // one broken clause does not mask another property.
         if let Some(p) = find_stuff(e) {
-            return Err(fail(&["C02"], "stuff-in-output", format!("encoded output contains FE FD at offset {}", p)));
+            soft.push(fail(&["C02"], "stuff-in-output", format!("encoded output contains FE FD at offset {}", p)));
         }
         // C02 (c): length bound.
         let bound = hcobs_ref::length_bound(input.len(), later);
         if first <= later {
             if e.len() > bound {
-                return Err(fail(&["C02"], "length-bound", format!("encoded length {} > bound {} for input length {}", e.len(), bound, input.len())));
+                soft.push(fail(&["C02"], "length-bound", format!("encoded length {} > bound {} for input length {}", e.len(), bound, input.len())));
             }
         }
         // C02 (b): equals the one-shot, undrained output of the real encoder.
@@ -860,18 +897,19 @@ fn round_trip(ctx: &mut Ctx, kind: &str, index: u64, case: &RoundTripCase<'_>) -
         if *e != e1 {
             // Attribute: does the same plan without drains also differ?
             let undrained: Vec<PieceStep> = case.enc_plan.iter().map(|s| PieceStep { drain: Drain::None, poke: Poke::None, ..*s }).collect();
-            let again = run_encode(params, input, &undrained, &owned, false).map(|o| o.total).unwrap_or_default();
+            let again = run_encode(params, input, &undrained, &owned, false, &mut Vec::new()).map(|o| o.total).unwrap_or_default();
             let d = first_diff(e, &e1);
             if again == e1 {
-                return Err(fail(&["C02", "C09"], "drain-dependent", format!("output differs from the undrained run of the same calls (first difference at {}; lengths {} vs {})", d, e.len(), e1.len())));
+                soft.push(fail(&["C02", "C09"], "drain-dependent", format!("output differs from the undrained run of the same calls (first difference at {}; lengths {} vs {})", d, e.len(), e1.len())));
+            } else {
+                soft.push(fail(&["C02"], "split-dependent", format!("output differs from the one-shot encoding (first difference at {}; lengths {} vs {})", d, e.len(), e1.len())));
             }
-            return Err(fail(&["C02"], "split-dependent", format!("output differs from the one-shot encoding (first difference at {}; lengths {} vs {})", d, e.len(), e1.len())));
         }
         // C07 encoder: canonical format per the independent reference.
         let r = hcobs_ref::encode(input, first, later);
         if *e != r {
             let d = first_diff(e, &r);
-            return Err(fail(&["C07"], "non-canonical", format!("encoder output differs from the reference encoding at offset {} (lengths {} vs {})", d, e.len(), r.len())));
+            soft.push(fail(&["C07"], "non-canonical", format!("encoder output differs from the reference encoding at offset {} (lengths {} vs {})", d, e.len(), r.len())));
         }
 
         // Decode side, independent plan.
@@ -894,7 +932,7 @@ fn round_trip(ctx: &mut Ctx, kind: &str, index: u64, case: &RoundTripCase<'_>) -
         let dplan = random_plan(&mut rng, e.len(), &marks, case.dec_drain_weight, case.miri);
         let mut owned2 = owned.clone();
         owned2.add(e);
-        let dec_out = run_decode(params, e, &dplan, &owned2, case.heavy);
+        let dec_out = run_decode(params, e, &dplan, &owned2, case.heavy, &mut soft);
         let pb = plan_bits(&dplan);
         dec_plan_used = Some(dplan);
         let dec_out = dec_out?;
@@ -923,6 +961,10 @@ fn round_trip(ctx: &mut Ctx, kind: &str, index: u64, case: &RoundTripCase<'_>) -
     ctx.ops += case.enc_plan.len() as u64 + dec_plan_used.as_ref().map(|d| d.len()).unwrap_or(0) as u64;
 
     let mk_case = |dec: Option<&[PieceStep]>| case_json(kind, index, params, input, &case.enc_plan, dec);
+    let had_soft = !soft.is_empty();
+    for f in soft.drain(..).take(4) {
+        ctx.violate(&f.props, &f.sig, f.what, mk_case(dec_plan_used.as_deref()));
+    }
     match res {
         Err(panic) => {
             ctx.violate(
@@ -956,6 +998,9 @@ fn round_trip(ctx: &mut Ctx, kind: &str, index: u64, case: &RoundTripCase<'_>) -
         return None;
     }
     ctx.feature("codec.drop_accounting_checked");
+    if had_soft {
+        return None;
+    }
     Some(mix(&[params.limits().0 as u64, params.limits().1 as u64, sig_bits.0, sig_bits.1, sig_bits.2]))
 }
 
@@ -967,7 +1012,11 @@ fn decoder_case(ctx: &mut Ctx, kind: &str, index: u64, params: Params, x: &[u8],
     let mut owned = Owned::new();
     owned.add(x);
     let expected = hcobs_ref::decode(x, first, later);
-    let res = catch(|| run_decode(params, x, plan, &owned, heavy));
+    let mut soft: Soft = Vec::new();
+    let res = catch(|| run_decode(params, x, plan, &owned, heavy, &mut soft));
+    for f in soft.drain(..).take(2) {
+        ctx.violate(&f.props, &f.sig, f.what, Json::obj().with("kind", Json::s(kind)).with("index", Json::U(index)).with("encoded", Json::hex(x)));
+    }
     count_plan_features(ctx, "dec", plan);
     ctx.ops += plan.len() as u64;
     let mk = || {
@@ -1699,6 +1748,145 @@ pub fn run_stream(ctx: &mut Ctx) {
                 ctx.feature_n("stream.bytes_streamed_MiB", len_mib as u64);
                 ctx.signature(mix(&[80, len_mib as u64, spec.style as u64, spec.dist as u64, spec.policy as u64, spec.pipeline as u64, spec.method_mix as u64, (calls as u64).leading_zeros() as u64]));
                 ctx.sample(3, || stream_json(idx, &spec).with("max_encoder_lag", Json::U(lag as u64)).with("max_live_arena_bytes", Json::U(live as u64)).with("feed_calls", Json::U(calls as u64)));
+            }
+        }
+        ctx.end_case(idx);
+        if ctx.too_many_violations() {
+            return;
+        }
+    }
+}
+
+
+// ---------------------------------------------------------------------------
+// Record streams through one StreamReader / one recycled Decoder (C10
+// footprint while the consumer keeps up, record after record)
+
+fn run_record_stream(ctx: &mut Ctx, idx: u64, total_mib: usize, rng: &mut Rng) -> Result<(usize, u64), Fail> {
+    use hcobs::StreamReader;
+    let base_chunks = ByteArena::num_live_chunks();
+    let base_bytes = ByteArena::num_live_bytes();
+    let target = total_mib << 20;
+    let via_reader = rng.chance(2, 3);
+    let block = *rng.pick(&[Some(4096usize), Some(65_536), Some(300), None]);
+    let big_every = rng.range(20, 400);
+    let mut max_live = 0usize;
+    let mut records = 0u64;
+    {
+        // build the stream in pieces of ~4 MiB so that memory stays modest
+        let mut sr = StreamReader::new();
+        let mut recycled: Option<OwningIovec<'static>> = Some(OwningIovec::new());
+        let mut produced = 0usize;
+        while produced < target {
+            let mut stream: Vec<u8> = Vec::with_capacity(5 << 20);
+            let mut expected: Vec<Vec<u8>> = Vec::new();
+            while stream.len() < (4 << 20) && produced + stream.len() < target {
+                let len = if expected.len() % big_every == big_every - 1 { rng.range(60_000, 70_000) } else { rng.range(0, 3000) };
+                let style = *rng.pick(&gen::STYLES);
+                let payload = gen::payload(rng, len, style);
+                stream.extend_from_slice(&hcobs_ref::encode(&payload, hcobs_ref::PROD_FIRST, hcobs_ref::PROD_LATER));
+                stream.extend_from_slice(&[0xFE, 0xFD]);
+                expected.push(payload);
+            }
+            produced += stream.len();
+            if via_reader {
+                let mut src: &[u8] = &stream;
+                let judge = StreamReader::chunk_judge(usize::MAX, None);
+                for want in &expected {
+                    let got = sr
+                        .next_record_bytes(&mut src, &judge, block)
+                        .map_err(|e| fail(&["C06"], "reader-err", e.to_string()))?;
+                    match got {
+                        None => return Err(fail(&["C06"], "missing-record", format!("record #{} not returned", records))),
+                        Some((iov, _)) => {
+                            let mut off = 0;
+                            for s in iov.stable_prefix() {
+                                if off + s.len() > want.len() || s[..] != want[off..off + s.len()] {
+                                    return Err(fail(&["C06"], "record-bytes", format!("record #{} differs", records)));
+                                }
+                                off += s.len();
+                            }
+                            if off != want.len() {
+                                return Err(fail(&["C06"], "record-bytes", format!("record #{} has {} bytes, expected {}", records, off, want.len())));
+                            }
+                        }
+                    }
+                    records += 1;
+                    let live = ByteArena::num_live_bytes() - base_bytes.min(ByteArena::num_live_bytes());
+                    max_live = max_live.max(live);
+                    if live > FOOTPRINT_BOUND {
+                        return Err(fail(&["C10"], "footprint-reader", format!("live arena bytes {} > bound {} after {} records read through one StreamReader", live, FOOTPRINT_BOUND, records)));
+                    }
+                }
+                // The chunk of stream just read ends on a delimiter; the
+                // reader now sees end of input and must report end of stream.
+                let end = sr.next_record_bytes(&mut src, &judge, block).map_err(|e| fail(&["C06"], "reader-err", e.to_string()))?;
+                if end.is_some() {
+                    return Err(fail(&["C06"], "extra-record", "a record was returned past the end of the stream".into()));
+                }
+            } else {
+                // one Decoder per record on a recycled iovec: new_from_iovec, decode, finish, read, clear
+                let mut pos = 0usize;
+                for want in &expected {
+                    let enc_len = hcobs_ref::encode(want, hcobs_ref::PROD_FIRST, hcobs_ref::PROD_LATER).len();
+                    let rec = &stream[pos..pos + enc_len];
+                    pos += enc_len + 2;
+                    let iov = recycled.take().unwrap();
+                    let mut dec = hcobs::Decoder::new_from_iovec(iov);
+                    dec.decode_copy(rec).map_err(|e| fail(&["C07"], "decode-reject", e.to_string()))?;
+                    let mut iov = dec.finish().map_err(|e| fail(&["C07"], "decode-reject", e.to_string()))?;
+                    if iov.total_size() != want.len() {
+                        return Err(fail(&["C01"], "roundtrip-bytes", format!("record #{} decodes to {} bytes, expected {}", records, iov.total_size(), want.len())));
+                    }
+                    // consume a little before clearing, like a real consumer would
+                    let _ = iov.consumer().advance_slices(want.len() / 2);
+                    iov.clear();
+                    recycled = Some(iov);
+                    records += 1;
+                    let live = ByteArena::num_live_bytes() - base_bytes.min(ByteArena::num_live_bytes());
+                    max_live = max_live.max(live);
+                    if live > FOOTPRINT_BOUND {
+                        return Err(fail(&["C10"], "footprint-recycled", format!("live arena bytes {} > bound {} after {} records through Decoders on one recycled iovec", live, FOOTPRINT_BOUND, records)));
+                    }
+                }
+            }
+        }
+        drop(sr);
+        drop(recycled);
+    }
+    let (c, b) = (ByteArena::num_live_chunks(), ByteArena::num_live_bytes());
+    if c != base_chunks || b != base_bytes {
+        return Err(fail(&["C10"], "leak-after-drop", format!("live arena chunks/bytes {}/{} after the record stream, {}/{} before", c, b, base_chunks, base_bytes)));
+    }
+    ctx.ops += records;
+    ctx.feature(if via_reader { "stream.records_through_one_stream_reader" } else { "stream.records_through_recycled_decoder" });
+    let _ = idx;
+    Ok((max_live, records))
+}
+
+pub fn run_record_streams(ctx: &mut Ctx) {
+    let thorough = ctx.args.thorough();
+    let streams = ctx.args.get_u64("streams", if thorough { 64 } else { 32 });
+    let mib = ctx.args.get_u64("mib", if thorough { 128 } else { 24 }) as usize;
+    for r in 0..streams {
+        let idx = r;
+        if !ctx.mine(idx) {
+            continue;
+        }
+        let mut rng = Rng::for_case(ctx.args.seed, "record-stream", r);
+        let len_mib = if r % 2 == 0 { mib } else { (mib / 4).max(1) };
+        let case = || Json::obj().with("kind", Json::s("record-stream")).with("index", Json::U(idx)).with("stream_len_MiB", Json::U(len_mib as u64));
+        ctx.begin_case(idx, case);
+        let res = catch(|| run_record_stream(ctx, idx, len_mib, &mut rng));
+        match res {
+            Err(p) => ctx.violate(&["C10", "C06"], &format!("panic:{}", panic_sig(&p)), format!("record stream panicked: {}", p), case()),
+            Ok(Err(f)) => ctx.violate(&f.props, &f.sig, f.what, case()),
+            Ok(Ok((live, records))) => {
+                ctx.maximum(&format!("stream.records.max_live_arena_bytes.len_{}MiB", len_mib), live as u64);
+                ctx.maximum("stream.records.max_live_arena_bytes", live as u64);
+                ctx.feature_n("stream.records_read", records);
+                ctx.signature(mix(&[81, len_mib as u64, r]));
+                ctx.sample(2, || case().with("records", Json::U(records)).with("max_live_arena_bytes", Json::U(live as u64)));
             }
         }
         ctx.end_case(idx);
